@@ -134,8 +134,11 @@ CHECKS = {
         "text": ("For each base program the harness builds the variants function-body, module-body, IIFE-wrapped sub-expressions (single, all, "
                  "and combined with function-body) and renaming. TLC evaluates base and variants with TengoSem and requires the variants' "
                  "outcomes to equal the base's under the result mapping (the spec itself is placement invariant on these programs); every "
-                 "variant is then run on the real VM and must yield an outcome TengoSem allows, mapped back to the base's result."),
-        "design_ref": "DESIGN.md 8/C11",
+                 "variant is then run on the real VM and must yield an outcome TengoSem allows, mapped back to the base's result. "
+                 "SymbolTable.tla models the compiler's symbol table (Define/Resolve/assign/Fork/leave, free-variable capture, block slot reuse, "
+                 "root-level accounting of globals) with the invariants lexical resolution, live locals disjoint, frames large enough, global "
+                 "slots unique, free lists servable; one witness call history per (state, call) edge is replayed on a real tengo.SymbolTable."),
+        "design_ref": "DESIGN.md 8/C11, 15.11",
         "note": "Trusted: TLC; the AST transformations (checked per program by the model-level equality). Closures in global-scope loops are not generated.",
         "technique": "TLA+ reference semantics evaluated on program variants (metamorphic relation checked on the model and on the real VM)",
     },
